@@ -305,6 +305,8 @@ def expected_debug(ex, R, st, ty_text, name, ctx, strings, used):
     if t in ("Span", AST + "Span", "ast::Span"):
         ex.fmt_spans.add(name)
         return "_"
+    if name == "e.Import.0.1" and st.facts.get("e.Import.0.0!tag") in (("eq", 1), ("eq", 4)):
+        return "None"        # `from .. import a as b`: aliases belong to the items; the declaration itself has none (parser)
     if re.match(r"^e\.Closure\.0\.e\d+\.0$", name):
         # closure parameters are built by the parser from bare names: never `mut`, type `_` (inferred), no default
         nm = name + ".1"
@@ -424,10 +426,16 @@ def classes_of(P, R, fname, ty, kind, als, bound, arms=None):
     if td is None:
         raise Inconclusive(f"type {ty} not found in the sources")
     classes, problems, encoded, paths = [], [], set(), 0
+    work = []
     for k, (vname, _) in enumerate(td.variants):
         vname = vname or td.name
         if arms and vname not in arms:
             continue
+        # `import` paths loop over `parent_levels` (a count): explored for each concrete count 0..=2
+        presets = [0, 1, 2] if (fname == "format_declaration" and vname == "Import") else [None]
+        for lv in presets:
+            work.append((k, vname, lv))
+    for k, vname, lv in work:
         ex = make_executor(P, R, bound, als, level=LEVELS.get(kind, 1))
         ex.fmt_variants = set()
         e = ex.sym_value(ty, "e")
@@ -435,6 +443,12 @@ def classes_of(P, R, fname, ty, kind, als, bound, arms=None):
         if td.kind == "enum":
             st0.facts[e.tag().term] = ("eq", k)
             st0.pc.append(f"(= {e.tag().term} {k})")
+        if lv is not None:
+            kind_sym = e.child("Import", 0).child(None, 0)
+            for var in ("Module", "From"):
+                ip = kind_sym.child(var, 0)
+                ip._children[(None, 0)] = S("int", str(lv), 64, False)
+                st0.facts[f"val:{ip.name}.0"] = str(lv)
         try:
             outs = ex.run(f, [selfref, e], state=st0)
         except (Unsupported, symex.PathExplosion) as x:
@@ -475,6 +489,7 @@ def classes_of(P, R, fname, ty, kind, als, bound, arms=None):
                     g = re.sub(r"\.e\d+", ".e#", k[4:])
                     c["lens_min"][g] = min(v, c["lens_min"].get(g, v))
             c["tags"] = {k: v for k, v in o.state.facts.items() if str(k).endswith("!tag")}
+            c["vals"] = {k[4:]: v for k, v in o.state.facts.items() if str(k).startswith("val:")}
             c["escaped"] = [ev[1] for ev in o.state.events if ev[0] == "ESCAPE"]
             classes.append(c)
     return classes, problems, sorted(encoded), paths
@@ -505,6 +520,17 @@ def grammar_excluded(c):
         for k in range(c["lens"].get("e.Match.1", 0)):
             if c["tags"].get(f"e.Match.1.e{k}.0.1!tag") == ("eq", 1) and c["tags"].get(f"e.Match.1.e{k}.0.2!tag") == ("eq", 0):
                 return "a guarded match arm with an expression body (guards exist only in the `case` form, whose body is a block)"
+    if c["fn"] == "format_declaration" and c["arm"] == "Import":
+        for var in ("Module", "From"):
+            pre = f"e.Import.0.0.{var}.0"
+            lv = c.get("vals", {}).get(f"{pre}.0")
+            if f"{pre}.1" in c["pc"] and lv not in (None, "0"):
+                return "an absolute (`crate::`) import path with parent levels"
+            if c["lens"].get(f"{pre}.2") == 0 and (f"{pre}.1" in c["pc"] or lv == "0"):
+                return "an import path without segments"
+        for var, fld in (("From", 1), ("RustFrom", 2)):
+            if c["lens"].get(f"e.Import.0.0.{var}.{fld}") == 0:
+                return "a from-import without items"
     if c["fn"] == "format_declaration":
         for arm, (fi, mi) in {"Model": (5, 6), "Class": (6, 7)}.items():
             if c["arm"] == arm and c["lens"].get(f"e.{arm}.0.{fi}") == 0 and c["lens"].get(f"e.{arm}.0.{mi}") == 0:
@@ -710,7 +736,7 @@ def build(pid, P, R, tier, log_dir):
             obs.append(fmt_obligation(P, R, mp, log_dir, "I-fmt-" + tag, fname, ty, kind, als, bound, idem=True))
         obs.append(fmt_obligation(P, R, mp, log_dir, "I-fmt-method", "format_method", AST + "MethodDecl", "method", True, 2, idem=True))
         obs.append(fmt_obligation(P, R, mp, log_dir, "I-fmt-decl", "format_declaration", AST + "Declaration", "decl", True, 2,
-                                  skip_arms=("Import", "Docstring"), idem=True))
+                                  skip_arms=("Docstring",), idem=True))
     if pid == "C08":
         obs.append(escape_obligation(P, R, mp, log_dir))
         obs.append(fmt_obligation(P, R, mp, log_dir, "F-fmt-expr", "format_expr", AST + "Expr", "expr", False, bound))
@@ -723,7 +749,7 @@ def build(pid, P, R, tier, log_dir):
         obs.append(fmt_obligation(P, R, mp, log_dir, "F-fmt-decorator", "format_decorator", AST + "Decorator", "decorator", True, bound))
         obs.append(fmt_obligation(P, R, mp, log_dir, "F-fmt-method", "format_method", AST + "MethodDecl", "method", True, 2))
         obs.append(fmt_obligation(P, R, mp, log_dir, "F-fmt-decl", "format_declaration", AST + "Declaration", "decl", True, 2,
-                                  skip_arms=("Import", "Docstring")))
+                                  skip_arms=("Docstring",)))
     return obs
 
 
